@@ -13,8 +13,8 @@ package main
 //	pend    unconfirmed writes sitting in the pool, in order: `a<i>=<rule>` (the account's rule is being changed / the
 //	        account is being created), `c<i>=a<j>` (an owner entry), `m=<rule>` (the rule of c0.run)
 //
-// The fault armed while VerifyTx runs (`-` = none); target <t> = a name (the key XCAccount/<t>) or `m` (the method rule
-// key of the transaction's contract request):
+// The fault armed while VerifyTx runs (`-` = none); target <t> = a name (the key XCAccount/<t>) or a method rule key:
+// `m` (c0.run), `ma` / `mn` / `mm` ($acl.SetAccountAcl / NewAccount / SetMethodAcl):
 //
 //	io:<t>      the storage read of the key's version pointer fails with an I/O error (kvmem read fault)
 //	ev:<t>      the pool records of the pending writers of the key are gone while the key's version pointer still names
@@ -25,8 +25,9 @@ package main
 // The transaction: initiator <init> (key or account) with initiator signatures by the keys <isig> (`x` = a signature
 // that does not verify); AuthRequire <uris>, the i-th signed as <usig>[i] says (`=` the key named by the last
 // component, `k<j>` that key, `x` a signature that does not verify); token inputs owned by <inputs> in this order;
-// <act>: `T` nothing else, `K` a call of c0.run, `A:a<i>` SetAccountAcl, `N:a<i>` NewAccount, `M:c<i>` SetMethodAcl of
-// c<i>.run — contract calls are pre-executed on the node the way a client does, the read/write sets are what came out.
+// <act>: `T` no contract request, otherwise up to three requests joined by `+`: `K` a call of c0.run, `A:a<i>`
+// SetAccountAcl, `N:a<i>` NewAccount, `M:c<i>` SetMethodAcl of c<i>.run — the requests are pre-executed on the node in
+// one sandbox the way a client does (Chain.PreExec), the read/write sets are what came out.
 //
 // Names: k0..k4 are real key pairs, a0..a3 contract accounts.
 
@@ -221,8 +222,24 @@ type eTx struct {
 	uris   []uri
 	usig   []string
 	inputs []string
-	act    byte   // T K A N M
-	arg    string // a<i> / c<i>
+	acts   []eAct // empty = no contract request
+}
+
+type eAct struct {
+	kind byte   // K A N M
+	arg  string // a<i> / c<i>
+}
+
+func (a eAct) request() (contractName, method string) {
+	switch a.kind {
+	case 'K':
+		return eContract("c0"), eMethod
+	case 'A':
+		return "$acl", "SetAccountAcl"
+	case 'N':
+		return "$acl", "NewAccount"
+	}
+	return "$acl", "SetMethodAcl"
 }
 
 func parseETx(initS, isigS, urisS, usigS, inputsS, actS string) (*eTx, error) {
@@ -266,15 +283,23 @@ func parseETx(initS, isigS, urisS, usigS, inputsS, actS string) (*eTx, error) {
 	if len(t.inputs) > eUtxos {
 		return nil, errors.New("too many inputs")
 	}
-	switch {
-	case actS == "T" || actS == "K":
-		t.act = actS[0]
-	case len(actS) == 4 && (actS[:2] == "A:" || actS[:2] == "N:") && eTokOK(actS[2:]) && !isKeyTok(actS[2:]):
-		t.act, t.arg = actS[0], actS[2:]
-	case len(actS) == 4 && actS[:2] == "M:" && eContrOK(actS[2:]):
-		t.act, t.arg = 'M', actS[2:]
-	default:
-		return nil, errors.New("bad action")
+	if actS == "T" {
+		return t, nil
+	}
+	for _, a := range strings.Split(actS, "+") {
+		switch {
+		case a == "K":
+			t.acts = append(t.acts, eAct{kind: 'K'})
+		case len(a) == 4 && (a[:2] == "A:" || a[:2] == "N:") && eTokOK(a[2:]) && !isKeyTok(a[2:]):
+			t.acts = append(t.acts, eAct{a[0], a[2:]})
+		case len(a) == 4 && a[:2] == "M:" && eContrOK(a[2:]):
+			t.acts = append(t.acts, eAct{'M', a[2:]})
+		default:
+			return nil, errors.New("bad action")
+		}
+	}
+	if len(t.acts) > 3 {
+		return nil, errors.New("too many requests")
 	}
 	return t, nil
 }
@@ -282,15 +307,18 @@ func parseETx(initS, isigS, urisS, usigS, inputsS, actS string) (*eTx, error) {
 type eFault struct {
 	kind   string // "" io ev rd
 	class  int
-	target string // name | m
+	target string // name | m ma mn mm
 }
+
+var methodTargets = map[string][2]string{"m": {chainlib.KVContract, eMethod}, "ma": {"$acl", "SetAccountAcl"},
+	"mn": {"$acl", "NewAccount"}, "mm": {"$acl", "SetMethodAcl"}}
 
 func parseEFault(s string) (*eFault, error) {
 	if s == "-" {
 		return &eFault{}, nil
 	}
 	kv := strings.SplitN(s, ":", 2)
-	if len(kv) != 2 || !(kv[1] == "m" || eTokOK(kv[1])) {
+	if _, isM := methodTargets[kv[1]]; len(kv) != 2 || !(isM || eTokOK(kv[1])) {
 		return nil, errors.New("bad fault")
 	}
 	f := &eFault{target: kv[1]}
@@ -364,9 +392,9 @@ var (
 	miner    *xvlib.Account
 )
 
-func targetKey(t string, reqContract, reqMethod string) (bucket, key string) {
-	if t == "m" {
-		return aclBucketContract, reqContract + "\x01" + reqMethod
+func targetKey(t string) (bucket, key string) {
+	if m, ok := methodTargets[t]; ok {
+		return aclBucketContract, m[0] + "\x01" + m[1]
 	}
 	return aclBucketAccount, eName(t)
 }
@@ -528,36 +556,6 @@ func getImage(c *eChain, key string) (*image, error) {
 
 // ---------------------------------------------------------------- the transaction under test
 
-func preExec(n *chainlib.Node, initiator string, auth []string, contractName, method string, args map[string][]byte) (*chainlib.PreExecResult, error) {
-	sb, err := n.CM.NewStateSandbox(&contract.SandboxConfig{XMReader: n.S.CreateXMReader(), UTXOReader: n.S.CreateUtxoReader()})
-	if err != nil {
-		return nil, err
-	}
-	req := &protos.InvokeRequest{ModuleName: "xkernel", ContractName: contractName, MethodName: method, Args: args}
-	ctx, err := n.CM.NewContext(&contract.ContextConfig{State: sb, Initiator: initiator, AuthRequire: auth,
-		ResourceLimits: contract.MaxLimits, Module: req.ModuleName, ContractName: req.ContractName})
-	if err != nil {
-		return nil, err
-	}
-	resp, err := ctx.Invoke(req.MethodName, req.Args)
-	if err != nil {
-		ctx.Release()
-		return nil, err
-	}
-	used := ctx.ResourceUsed()
-	ctx.Release()
-	if resp.Status >= 400 {
-		return nil, fmt.Errorf("contract status %d: %s", resp.Status, resp.Message)
-	}
-	if err := sb.Flush(); err != nil {
-		return nil, err
-	}
-	rw := sb.RWSet()
-	rq := *req
-	rq.ResourceLimits = contract.ToPbLimits(used)
-	return &chainlib.PreExecResult{Requests: []*protos.InvokeRequest{&rq}, Inputs: xmodel.GetTxInputs(rw.RSet), Outputs: xmodel.GetTxOutputs(rw.WSet)}, nil
-}
-
 var newRule = &rule{kind: 'T', theta: 4, members: []member{{"k4", 4}}}
 
 var eNonce int
@@ -570,7 +568,42 @@ func sigInfo(k *xvlib.Account, sig []byte, spoil bool) *protos.SignatureInfo {
 	return &protos.SignatureInfo{PublicKey: k.PubJSON, Sign: s}
 }
 
-func buildETx(im *image, t *eTx) (tx *pb.Transaction, reqContract, reqMethod string, err error) {
+// preExecAll pre-executes the requests in ONE sandbox, in order (the steps of Chain.PreExec)
+func preExecAll(n *chainlib.Node, initiator string, auth []string, reqs []*protos.InvokeRequest) (*chainlib.PreExecResult, error) {
+	sb, err := n.CM.NewStateSandbox(&contract.SandboxConfig{XMReader: n.S.CreateXMReader(), UTXOReader: n.S.CreateUtxoReader()})
+	if err != nil {
+		return nil, err
+	}
+	r := &chainlib.PreExecResult{}
+	for _, req := range reqs {
+		ctx, err := n.CM.NewContext(&contract.ContextConfig{State: sb, Initiator: initiator, AuthRequire: auth,
+			ResourceLimits: contract.MaxLimits, Module: req.ModuleName, ContractName: req.ContractName})
+		if err != nil {
+			return nil, err
+		}
+		resp, err := ctx.Invoke(req.MethodName, req.Args)
+		if err != nil {
+			ctx.Release()
+			return nil, err
+		}
+		used := ctx.ResourceUsed()
+		ctx.Release()
+		if resp.Status >= 400 {
+			return nil, fmt.Errorf("contract status %d: %s", resp.Status, resp.Message)
+		}
+		rq := *req
+		rq.ResourceLimits = contract.ToPbLimits(used)
+		r.Requests = append(r.Requests, &rq)
+	}
+	if err := sb.Flush(); err != nil {
+		return nil, err
+	}
+	rw := sb.RWSet()
+	r.Inputs, r.Outputs = xmodel.GetTxInputs(rw.RSet), xmodel.GetTxOutputs(rw.WSet)
+	return r, nil
+}
+
+func buildETx(im *image, t *eTx) (tx *pb.Transaction, err error) {
 	eNonce++
 	tx = &pb.Transaction{Version: 3, Nonce: fmt.Sprintf("vtx%d", eNonce), Timestamp: 1600000000, Desc: []byte("vtx"),
 		Initiator: eName(t.init), AuthRequire: eURIs(t.uris)}
@@ -579,7 +612,7 @@ func buildETx(im *image, t *eTx) (tx *pb.Transaction, reqContract, reqMethod str
 	for _, o := range t.inputs {
 		us := im.utxo[o]
 		if cnt[o] >= len(us) {
-			return nil, "", "", errors.New("no output left")
+			return nil, errors.New("no output left")
 		}
 		u := us[cnt[o]]
 		cnt[o]++
@@ -589,28 +622,27 @@ func buildETx(im *image, t *eTx) (tx *pb.Transaction, reqContract, reqMethod str
 	if sum.Sign() > 0 {
 		tx.TxOutputs = append(tx.TxOutputs, &protos.TxOutput{ToAddr: []byte(eKey(0).Address), Amount: sum.Bytes()})
 	}
-	var r *chainlib.PreExecResult
-	switch t.act {
-	case 'K':
-		reqContract, reqMethod = eContract("c0"), eMethod
-		r, err = preExec(im.n, tx.Initiator, tx.AuthRequire, reqContract, reqMethod, map[string][]byte{"prog": []byte("put x 1")})
-	case 'A':
-		reqContract, reqMethod = "$acl", "SetAccountAcl"
-		r, err = preExec(im.n, tx.Initiator, tx.AuthRequire, reqContract, reqMethod,
-			map[string][]byte{"account_name": []byte(eName(t.arg)), "acl": ruleJSON(newRule)})
-	case 'N':
-		reqContract, reqMethod = "$acl", "NewAccount"
-		r, err = preExec(im.n, tx.Initiator, tx.AuthRequire, reqContract, reqMethod,
-			map[string][]byte{"account_name": []byte(eAcctNumber(t.arg)), "acl": ruleJSON(newRule)})
-	case 'M':
-		reqContract, reqMethod = "$acl", "SetMethodAcl"
-		r, err = preExec(im.n, tx.Initiator, tx.AuthRequire, reqContract, reqMethod,
-			map[string][]byte{"contract_name": []byte(eContract(t.arg)), "method_name": []byte(eMethod), "acl": ruleJSON(newRule)})
+	var reqs []*protos.InvokeRequest
+	for i, a := range t.acts {
+		c, m := a.request()
+		var args map[string][]byte
+		switch a.kind {
+		case 'K':
+			args = map[string][]byte{"prog": []byte(fmt.Sprintf("put x%d 1", i))}
+		case 'A':
+			args = map[string][]byte{"account_name": []byte(eName(a.arg)), "acl": ruleJSON(newRule)}
+		case 'N':
+			args = map[string][]byte{"account_name": []byte(eAcctNumber(a.arg)), "acl": ruleJSON(newRule)}
+		case 'M':
+			args = map[string][]byte{"contract_name": []byte(eContract(a.arg)), "method_name": []byte(eMethod), "acl": ruleJSON(newRule)}
+		}
+		reqs = append(reqs, &protos.InvokeRequest{ModuleName: "xkernel", ContractName: c, MethodName: m, Args: args})
 	}
-	if err != nil {
-		return nil, "", "", fmt.Errorf("pre-execution: %v", err)
-	}
-	if r != nil {
+	if len(reqs) > 0 {
+		r, err := preExecAll(im.n, tx.Initiator, tx.AuthRequire, reqs)
+		if err != nil {
+			return nil, fmt.Errorf("pre-execution: %v", err)
+		}
 		tx.ContractRequests, tx.TxInputsExt, tx.TxOutputsExt = r.Requests, r.Inputs, r.Outputs
 	}
 	// signatures: everybody signs the same digest
@@ -625,7 +657,7 @@ func buildETx(im *image, t *eTx) (tx *pb.Transaction, reqContract, reqMethod str
 		}
 		sg, e := sign(k)
 		if e != nil {
-			return nil, "", "", e
+			return nil, e
 		}
 		tx.InitiatorSigns = append(tx.InitiatorSigns, sigInfo(k, sg, spoil))
 	}
@@ -645,12 +677,12 @@ func buildETx(im *image, t *eTx) (tx *pb.Transaction, reqContract, reqMethod str
 		}
 		sg, e := sign(k)
 		if e != nil {
-			return nil, "", "", e
+			return nil, e
 		}
 		tx.AuthRequireSigns = append(tx.AuthRequireSigns, sigInfo(k, sg, spoil))
 	}
 	tx.Txid, err = txhash.MakeTransactionID(tx)
-	return tx, reqContract, reqMethod, err
+	return tx, err
 }
 
 // ---------------------------------------------------------------- the property, evaluated independently (oracle)
@@ -712,7 +744,7 @@ func eVerdict(c *eChain, t *eTx) string {
 			return "input-of-account-without-sat"
 		}
 	}
-	if t.act != 'T' {
+	if len(t.acts) > 0 {
 		var users []uri
 		seen := map[string]bool{}
 		if isKeyTok(t.init) {
@@ -726,26 +758,30 @@ func eVerdict(c *eChain, t *eTx) string {
 				users = append(users, u)
 			}
 		}
-		var mr *rule
-		if t.act == 'K' {
-			mr = c.mrule
-		}
-		if !specMethod(mr, e, users) {
-			return "method-without-sat"
+		for _, a := range t.acts {
+			var mr *rule
+			if a.kind == 'K' {
+				mr = c.mrule
+			}
+			if !specMethod(mr, e, users) {
+				return "method-without-sat"
+			}
 		}
 	}
-	switch t.act {
-	case 'A', 'N':
-		if !specAccount(t.arg, e, t.uris) {
-			return "acl-write-without-owner:account"
-		}
-	case 'M':
-		o, has := c.owners[t.arg]
-		if !has {
-			return "method-acl-without-confirmed-owner"
-		}
-		if !specAccount(o, e, t.uris) {
-			return "acl-write-without-owner:method"
+	for _, a := range t.acts {
+		switch a.kind {
+		case 'A', 'N':
+			if !specAccount(a.arg, e, t.uris) {
+				return "acl-write-without-owner:account"
+			}
+		case 'M':
+			o, has := c.owners[a.arg]
+			if !has {
+				return "method-acl-without-confirmed-owner"
+			}
+			if !specAccount(o, e, t.uris) {
+				return "acl-write-without-owner:method"
+			}
 		}
 	}
 	return ""
@@ -761,14 +797,11 @@ type vtxResult struct {
 	fault bool
 }
 
-func (f *eFault) arm(im *image, reqContract, reqMethod string) (disarm func(), armed bool, err error) {
+func (f *eFault) arm(im *image) (disarm func(), armed bool, err error) {
 	if f.kind == "" {
 		return func() {}, false, nil
 	}
-	if f.target == "m" && reqContract == "" {
-		return func() {}, false, nil // no contract request, no method rule key
-	}
-	bucket, key := targetKey(f.target, reqContract, reqMethod)
+	bucket, key := targetKey(f.target)
 	switch f.kind {
 	case "io":
 		raw := pb.ExtUtxoTablePrefix + bucket + "/" + key
@@ -784,13 +817,7 @@ func (f *eFault) arm(im *image, reqContract, reqMethod string) (disarm func(), a
 		im.rely.bucket, im.rely.key, im.rely.err = bucket, key, rdErrors[f.class]
 		return func() { im.rely.err = nil }, true, nil
 	case "ev":
-		t := f.target
-		if t == "m" {
-			if reqContract != eContract("c0") || reqMethod != eMethod {
-				return func() {}, false, nil
-			}
-		}
-		txs := im.pendTx[t]
+		txs := im.pendTx[f.target]
 		if len(txs) == 0 {
 			return func() {}, false, nil
 		}
@@ -833,20 +860,18 @@ func runVtx(f []string) (res vtxResult) {
 		return vtxResult{ans: "bad-op"}
 	}
 	// a client can only pre-execute SetAccountAcl on a stored account and NewAccount on a name not yet taken
-	_, stored := c.env[t.arg]
-	stored = stored || c.broken[t.arg] || c.pendSet[t.arg]
-	if (t.act == 'A' && (!stored || c.broken[t.arg])) || (t.act == 'N' && stored) {
+	if !preExecutable(c, t.acts) {
 		return vtxResult{ans: "bad-op"}
 	}
 	im, err := getImage(c, strings.Join(f[1:5], "|"))
 	if err != nil {
 		xvlib.Die("chain image %q: %v", strings.Join(f[1:5], "|"), err)
 	}
-	tx, rc, rm, err := buildETx(im, t)
+	tx, err := buildETx(im, t)
 	if err != nil {
 		return vtxResult{ans: "no-tx:" + err.Error()}
 	}
-	disarm, armed, err := flt.arm(im, rc, rm)
+	disarm, armed, err := flt.arm(im)
 	if err != nil {
 		xvlib.Die("arming fault %q: %v", f[5], err)
 	}
@@ -876,7 +901,11 @@ func runVtx(f []string) (res vtxResult) {
 		}
 	case !impl && v == "" && !armed:
 		// the code refuses to decide on an owner entry that has an unconfirmed overwrite: not a violation
-		if t.act == 'M' && c.pendSet[t.arg] {
+		pendingOwner := false
+		for _, a := range t.acts {
+			pendingOwner = pendingOwner || (a.kind == 'M' && c.pendSet[a.arg])
+		}
+		if pendingOwner {
 			break
 		}
 		// stored bytes that are no rule make every evaluation that meets the name fail (an unreadable rule): rejecting
@@ -891,12 +920,39 @@ func runVtx(f []string) (res vtxResult) {
 	return res
 }
 
+// preExecutable: SetAccountAcl needs a stored (parsable) account, NewAccount a name not yet taken; a NewAccount
+// earlier in the same transaction counts.
+func preExecutable(c *eChain, acts []eAct) bool {
+	created := map[string]bool{}
+	for _, a := range acts {
+		_, stored := c.env[a.arg]
+		stored = stored || c.broken[a.arg] || c.pendSet[a.arg] || created[a.arg]
+		switch a.kind {
+		case 'A':
+			if !stored || c.broken[a.arg] {
+				return false
+			}
+		case 'N':
+			if stored {
+				return false
+			}
+			created[a.arg] = true
+		}
+	}
+	return true
+}
+
 func touchesBroken(c *eChain, t *eTx) bool {
 	if len(c.broken) == 0 {
 		return false
 	}
-	if c.broken[t.init] || c.broken[t.arg] || (t.act == 'M' && c.broken[c.owners[t.arg]]) {
+	if c.broken[t.init] {
 		return true
+	}
+	for _, a := range t.acts {
+		if c.broken[a.arg] || (a.kind == 'M' && c.broken[c.owners[a.arg]]) {
+			return true
+		}
 	}
 	for _, o := range t.inputs {
 		if c.broken[o] {
@@ -935,6 +991,21 @@ func shrinkVtx(f []string, kind string) []string {
 				if try(g) {
 					f, parts = g, strings.Fields(g[field])
 					changed = true
+					i--
+				}
+			}
+		}
+		if f[11] != "T" {
+			as := strings.Split(f[11], "+")
+			for i := 0; i < len(as); i++ {
+				g := append([]string{}, f...)
+				rest := append(append([]string{}, as[:i]...), as[i+1:]...)
+				g[11] = strings.Join(rest, "+")
+				if len(rest) == 0 {
+					g[11] = "T"
+				}
+				if try(g) {
+					f, as, changed = g, rest, true
 					i--
 				}
 			}
@@ -1075,31 +1146,48 @@ func eRandTx(rng *xvlib.Rng, c *eChain) string {
 			isig = []string{key(), init}
 		}
 	}
-	// action
-	var act string
+	// contract requests
+	var acts []eAct
+	na := 0
 	switch rng.Intn(20) {
 	case 0, 1, 2, 3, 4, 5, 6:
-		act = "T"
-	case 7, 8, 9:
-		act = "K"
-	case 10, 11, 12, 13, 14:
-		act = "A:" + acct()
-	case 15:
-		act = "N:" + acct()
+	case 7, 8:
+		na = 2
+	case 9:
+		na = 3
 	default:
-		act = fmt.Sprintf("M:c%d", rng.Intn(eNContr))
+		na = 1
 	}
-	if act[0] == 'A' || act[0] == 'N' {
-		a := act[2:]
-		_, stored := c.env[a]
-		stored = stored || c.broken[a] || c.pendSet[a]
-		if stored && !c.broken[a] {
-			act = "A:" + a
-		} else if !stored {
-			act = "N:" + a
-		} else {
-			act = "T"
+	created := map[string]bool{}
+	for i := 0; i < na; i++ {
+		switch rng.Intn(13) {
+		case 0, 1, 2:
+			acts = append(acts, eAct{kind: 'K'})
+		case 3, 4, 5, 6, 7, 8:
+			a := acct()
+			_, stored := c.env[a]
+			stored = stored || c.broken[a] || c.pendSet[a] || created[a]
+			if stored && !c.broken[a] {
+				acts = append(acts, eAct{'A', a})
+			} else if !stored {
+				acts = append(acts, eAct{'N', a})
+				created[a] = true
+			}
+		default:
+			acts = append(acts, eAct{'M', fmt.Sprintf("c%d", rng.Intn(eNContr))})
 		}
+	}
+	act := "T"
+	if len(acts) > 0 {
+		var as []string
+		for _, a := range acts {
+			if a.kind == 'K' {
+				as = append(as, "K")
+			} else {
+				as = append(as, string(a.kind)+":"+a.arg)
+			}
+		}
+		act = strings.Join(as, "+")
 	}
 	// inputs
 	var inputs []string
@@ -1130,12 +1218,17 @@ func eRandTx(rng *xvlib.Rng, c *eChain) string {
 			need[o] = true
 		}
 	}
-	switch act[0] {
-	case 'A', 'N':
-		need[act[2:]] = true
-	case 'M':
-		if o, ok := c.owners[act[2:]]; ok {
-			need[o] = true
+	callsK := false
+	for _, a := range acts {
+		switch a.kind {
+		case 'K':
+			callsK = true
+		case 'A', 'N':
+			need[a.arg] = true
+		case 'M':
+			if o, ok := c.owners[a.arg]; ok {
+				need[o] = true
+			}
 		}
 	}
 	var uris, usig []string
@@ -1185,7 +1278,7 @@ func eRandTx(rng *xvlib.Rng, c *eChain) string {
 		for _, a := range needL {
 			below(a, a, 0)
 		}
-		if act == "K" && c.mrule.kind != 'N' {
+		if callsK && c.mrule.kind != 'N' {
 			for _, m := range c.mrule.members {
 				if isKeyTok(m.name) {
 					add(m.name)
@@ -1243,7 +1336,7 @@ func eRandTx(rng *xvlib.Rng, c *eChain) string {
 		for _, u := range uris {
 			targets = append(targets, strings.Split(u, "/")...)
 		}
-		targets = append(targets, "m", acct(), key())
+		targets = append(targets, "m", []string{"m", "ma", "mn", "mm"}[rng.Intn(4)], acct(), key())
 		sort.Strings(targets[:len(need)])
 		t := targets[rng.Intn(len(targets))]
 		switch rng.Intn(6) {
@@ -1255,6 +1348,10 @@ func eRandTx(rng *xvlib.Rng, c *eChain) string {
 				fault = "ev:" + c.pend[rng.Intn(len(c.pend))].target
 				if fault[3] == 'c' {
 					fault = "ev:" + t
+				}
+				if len(acts) == 0 && fault[3] == 'a' && rng.Bool() {
+					acts = append(acts, eAct{'A', fault[3:]}) // a rule change of the account whose pending writer is evicted
+					act = "A:" + fault[3:]
 				}
 			}
 		default:
